@@ -59,7 +59,10 @@ def strategy(tier):
 
 def static_cases(tier):
     out = []
-    for P in ([1.0, 0, 0, 0], [0, 1.0, 0, 0], [0, 0, 0, 2.0], [-0.5, 0.5, 0.5, 0.5], [3.0, 4.0, 0, 0]):
+    for P in ([1.0, 0, 0, 0], [0, 1.0, 0, 0], [0, 0, 0, 2.0], [-0.5, 0.5, 0.5, 0.5], [3.0, 4.0, 0, 0],
+              # no positive component / pure scalar part with non-unit length
+              [-1.0, 0, 0, 0], [0, -1.0, 0, 0], [-0.6, 0, 0, -0.8], [-3.0, 0, 0, -4.0], [2.0, 0, 0, 0], [-3.0, 0, 0, 0],
+              [0, 0, -0.5, 0]):
         out.append({"P": list(map(float, P)), "Q": [0.0, 0.0, 1.0, 0.0], "w": [0.1, -0.2, 0.3], "c": -2.0,
                     "a": [1.0, 2.0, 3.0], "b": [-1.0, 0.5, 0.0]})
     return out
